@@ -10,7 +10,7 @@ namespace Api
 @[simp] theorem isOk_crash {α} (c : String) : (Outcome.crash c : Outcome α).isOk = false := rfl
 
 theorem isOk_badType (exps d) : (badType exps d).isOk = false := by
-  unfold badType; split <;> rfl
+  unfold badType; rfl
 
 theorem isOk_constrained (rs v) : (constrained rs v).isOk = rs.isEmpty := by
   unfold constrained; cases rs <;> rfl
